@@ -153,7 +153,7 @@ def s_lattice2d(draw, tier, max_chi=256, min_D=1, **kw):
     if lat["layers"] == 2:
         lat["phys"] = draw(st.sampled_from([2, 2, 3] if lat["cx"] else [1, 2, 2, 3]))
         # bra from the same state (norm) or from another one (overlap)
-        lat["bra_seed"] = draw(st.sampled_from([None, None, 7]))
+        lat["bra_seed"] = 7 if draw(st.booleans()) else None
     return lat
 
 
@@ -180,10 +180,53 @@ def build2d(lat):
     return tn
 
 
+def net_value(arrs, output=()):
+    """Denotation of [(array, labels)] over `output`.  vf.oracle.einsum_value whenever numpy.einsum can take it (its
+    integer-sublist form allows 52 distinct labels); larger networks (lazy projector networks) are reduced pairwise with
+    numpy.tensordot in an own greedy smallest-result order.  Those networks are ordinary: every summed label sits on
+    exactly two tensors (checked)."""
+    labels = {l for _, ls in arrs for l in ls}
+    if len(labels) <= 50:
+        return einsum_value(arrs, tuple(output))
+    count = {}
+    for _, ls in arrs:
+        for l in ls:
+            count[l] = count.get(l, 0) + 1
+    for l, c in count.items():
+        if c > 2 or (c == 2 and l in output) or (c == 1 and l not in output):
+            raise AssertionError("net_value: label %r is not an ordinary bond / output" % (l,))
+    ops = [(np.asarray(a), list(ls)) for a, ls in arrs]
+    while len(ops) > 1:
+        best = None
+        n = len(ops)
+        for i in range(n):
+            si = set(ops[i][1])
+            for j in range(i + 1, n):
+                shared = si.intersection(ops[j][1])
+                if not shared and best is not None and best[0][0] == 0:
+                    continue
+                size = 1
+                for a, ls in (ops[i], ops[j]):
+                    for d, l in zip(a.shape, ls):
+                        if l not in shared:
+                            size *= d
+                key = (0 if shared else 1, size)
+                if best is None or key < best[0]:
+                    best = (key, i, j, shared)
+        _, i, j, shared = best
+        (a, la), (b, lb) = ops[i], ops[j]
+        sh = sorted(shared)
+        c = np.tensordot(a, b, axes=([la.index(l) for l in sh], [lb.index(l) for l in sh]))
+        lc = [l for l in la if l not in shared] + [l for l in lb if l not in shared]
+        ops = [o for k, o in enumerate(ops) if k not in (i, j)] + [(c, lc)]
+    a, la = ops[0]
+    return np.transpose(a, [la.index(l) for l in output]) if output else a
+
+
 def reference(tn, output=()):
     """(value incl. the stored exponent, a-priori magnitude) by numpy.einsum."""
     arrs = [(np.asarray(a, dtype=np.complex128), i) for a, i in tn_tensors(tn)]
-    v = einsum_value(arrs, tuple(output))
+    v = net_value(arrs, tuple(output))
     mag = 1.0
     for a, _ in arrs:
         mag *= max(float(np.linalg.norm(a.ravel())), 1e-300)
@@ -201,7 +244,7 @@ def denote(res, output=()):
         res, expo = res
         expo = float(np.real(expo))
     if isinstance(res, qtn.TensorNetwork):
-        v = einsum_value([(np.asarray(a, dtype=np.complex128), i) for a, i in tn_tensors(res)], tuple(output))
+        v = net_value([(np.asarray(a, dtype=np.complex128), i) for a, i in tn_tensors(res)], tuple(output))
         return np.asarray(v) * 10.0 ** (float(np.real(res.exponent)) + expo)
     if isinstance(res, qtn.Tensor):
         if set(res.inds) != set(output):
@@ -511,11 +554,15 @@ def check_cap(tn, chi, ndim=2, **info):
 
 ALL_GROUP_MODES = [m for ms in B2D_GROUPS.values() for m in ms]
 LIGHT_MODES = [m for m in ALL_GROUP_MODES if m not in HEAVY]
+# pool for the sub-checks that are about an entry point rather than a mode: the three native 2D modes (the default
+# 'mps' above all) are weighted up, every other mode name appears once
+MODE_POOL = ["mps"] * 6 + ["full-bond"] * 2 + ["projector2d"] * 2 + [m for m in ALL_GROUP_MODES if m not in MODES_2D]
+CAP_GROUPS = {"mps": ["mps"], "full-bond": ["full-bond"], "projector2d": ["projector2d"], "via1d": MODES_1D, "viaag": MODES_AG}
 
 
 @st.composite
 def s_mode_lat(draw, tier, modes=None, binding=False, **latkw):
-    mode = draw(st.sampled_from(modes or ALL_GROUP_MODES))
+    mode = draw(st.sampled_from(modes or MODE_POOL))
     heavy = mode in HEAVY
     max_chi = (64 if tier == "quick" else 256) if heavy else (256 if tier == "quick" else 729)
     lat = draw(s_lattice2d(tier, max_chi=max_chi, **latkw))
@@ -540,19 +587,33 @@ def s_side_opts(draw, mode, lat):
 
 @st.composite
 def s_patch(draw, lat, from_which):
-    """(xrange, yrange): >= 2 rows along the sweep and >= 2 sites across it; None = everything."""
+    """(xrange, yrange): >= 2 rows along the sweep and >= 2 sites across it; None = everything.  The patch never is the
+    whole lattice: swallowing the last row of everything leaves a boundary without any open index (see ASSUMPTIONS)."""
     Lx, Ly = lat["Lx"], lat["Ly"]
 
-    def rng(L, allow_none):
-        if allow_none and draw(st.booleans()):
+    def rng(L, allow_none, strict=False):
+        if allow_none and not strict and draw(st.booleans()):
             return None
         a = draw(st.integers(0, L - 2))
         b = draw(st.integers(a + 1, L - 1))
+        if strict and (a, b) == (0, L - 1):
+            a, b = (a + 1, b) if draw(st.booleans()) else (a, b - 1)
         return [a, b]
 
-    if from_which[0] == "x":
-        return rng(Lx, False), rng(Ly, True)
-    return rng(Lx, True), rng(Ly, False)
+    Ls, Lo = (Lx, Ly) if from_which[0] == "x" else (Ly, Lx)
+    if Ls >= 3:
+        along, across = rng(Ls, False, strict=True), rng(Lo, True)
+    elif Lo >= 3:
+        along, across = [0, 1], rng(Lo, True, strict=True)
+    else:
+        along, across = [0, 1], None  # 2x2: the whole lattice (rejected by the runs)
+    return (along, across) if from_which[0] == "x" else (across, along)
+
+
+def whole_lattice(case, lat):
+    xr = case["xrange"] if case.get("xrange") is not None else [0, lat["Lx"] - 1]
+    yr = case["yrange"] if case.get("yrange") is not None else [0, lat["Ly"] - 1]
+    return abs(xr[1] - xr[0]) + 1 == lat["Lx"] and abs(yr[1] - yr[0]) + 1 == lat["Ly"]
 
 
 @st.composite
@@ -583,6 +644,24 @@ def call_from_side(tn, case, max_bond, cutoff):
     return fn(yr, xrange=xr, max_bond=max_bond, cutoff=cutoff, mode=case["mode"], **kw)
 
 
+def check_handover(res, case, lat, **info):
+    """After a one-sided sweep (not lazy) the rows of the patch are merged: exactly one tensor per column of the patch,
+    holding that column's sites of every swept row (the pictures of the docstrings)."""
+    fw = case["from_which"]
+    Lx, Ly = lat["Lx"], lat["Ly"]
+    xr = case["xrange"] if case["xrange"] is not None else [0, Lx - 1]
+    yr = case["yrange"] if case["yrange"] is not None else [0, Ly - 1]
+    rows = range(min(xr), max(xr) + 1)
+    cols = range(min(yr), max(yr) + 1)
+    lines = [[(i, j) for i in rows] for j in cols] if fw[0] == "x" else [[(i, j) for j in cols] for i in rows]
+    blobs = [site_coords(t) for t in res]
+    for line in lines:
+        want = set(line)
+        hits = [b for b in blobs if b & want]
+        if len(hits) != 1 or hits[0] != want:
+            raise Violation("handover-structure", pieces=len(hits), **info)
+
+
 def swept_rows(case, lat):
     r = case["xrange"] if case["from_which"][0] == "x" else case["yrange"]
     return abs(r[1] - r[0]) + 1
@@ -590,6 +669,8 @@ def swept_rows(case, lat):
 
 def run_from_side(case):
     lat, mode = case["lat"], case["mode"]
+    if whole_lattice(case, lat):
+        raise Reject("patch is the whole lattice (closed boundary)")
     tn = build2d(lat)
     ref, mag = reference(tn)
     chi = max(chi_exact(lat), chi_rows(lat, swept_rows(case, lat))) + int(case["chi_extra"])
@@ -602,6 +683,7 @@ def run_from_side(case):
     e = check_value(denote(res), ref, mag, mode=mode, entry="from_side", from_which=case["from_which"],
                     equalize=repr(case["opts"].get("equalize_norms", False)), layered=lat.get("layers", 1) == 2)
     # the swept rows are now one tensor per column of the patch
+    check_handover(res, case, lat, mode=mode, entry="from_side", from_which=case["from_which"], layered=lat.get("layers", 1) == 2)
     n = swept_rows(case, lat)
     cls = lat_classes(lat) + ["mode=" + mode, "from=" + case["from_which"], "rows=%d" % n, "spell=" + case["spelling"]]
     cls += ["opt:" + k for k in sorted(case["opts"])]
@@ -647,7 +729,7 @@ def run_mps_sweep(case):
 @st.composite
 def s_around(draw, tier):
     entry = draw(st.sampled_from(["boundary", "boundary", "ctmrg"]))
-    modes = ALL_GROUP_MODES if entry == "boundary" else CTMRG_MODES
+    modes = MODE_POOL if entry == "boundary" else CTMRG_MODES
     mode = draw(st.sampled_from(modes))
     heavy = mode in HEAVY
     lat = draw(s_lattice2d(tier, max_chi=(64 if heavy else 256) if tier == "quick" else (256 if heavy else 729), min_L=3,
@@ -725,8 +807,12 @@ def binding_chi(frac, exact):
 
 
 @st.composite
-def s_cap_side(draw, tier):
-    mode, lat = draw(s_mode_lat(tier, allow_cyclic=True, min_D=2))
+def s_cap_side(draw, tier, modes=None):
+    # (the bond-environment code of 'full-bond' cuts exactly one bond between neighbouring boundary sites: once it really
+    # truncates it does not support a periodic boundary -> open lattices for that mode)
+    mode, lat = draw(s_mode_lat(tier, modes=modes, allow_cyclic=modes != ["full-bond"], min_D=2))
+    if mode == "full-bond" and (lat.get("cx") or lat.get("cy")):
+        lat["cx"] = lat["cy"] = False
     fw = draw(st.sampled_from(DIRS2))
     xr, yr = draw(s_patch(lat, fw))
     o = draw(s_side_opts(mode, lat))
@@ -740,6 +826,8 @@ def s_cap_side(draw, tier):
 
 def run_cap_side(case):
     lat, mode = case["lat"], case["mode"]
+    if whole_lattice(case, lat):
+        raise Reject("patch is the whole lattice (closed boundary)")
     tn = build2d(lat)
     n = swept_rows(case, lat)
     exact = dlayer(lat) ** n  # bond between neighbouring columns of the merged rows
@@ -753,6 +841,7 @@ def run_cap_side(case):
                           layered=lat.get("layers", 1) == 2, cyclic=bool(lat.get("cx") or lat.get("cy")))
     if nb == 0:
         raise Violation("no-boundary-found", mode=mode)  # the sweep must have merged the rows of the patch
+    check_handover(res, case, lat, mode=mode, entry="from_side", from_which=case["from_which"], layered=lat.get("layers", 1) == 2)
     cls = lat_classes(lat) + ["mode=" + mode, "from=" + case["from_which"], "rows=%d" % n, "chi/exact=%.1f" % (round(4 * chi / exact) / 4),
                               "cutoff=%g" % case["cutoff"], "saturated" if worst == chi else "below"]
     cls += ["opt:" + k for k in sorted(case["opts"])]
@@ -760,8 +849,8 @@ def run_cap_side(case):
 
 
 @st.composite
-def s_cap_boundary(draw, tier):
-    mode, lat = draw(s_mode_lat(tier, allow_cyclic=False, min_D=2))
+def s_cap_boundary(draw, tier, modes=None):
+    mode, lat = draw(s_mode_lat(tier, modes=modes, allow_cyclic=False, min_D=2))
     o = draw(s_boundary_opts(mode, lat))
     for k in ("strip_exponent", "lazy"):
         o.pop(k, None)
@@ -772,6 +861,24 @@ def s_cap_boundary(draw, tier):
         case["seed"] = draw(st.integers(0, 2**31 - 1))
     case["sequence"] = make_it_sweep(lat, case["sequence"], case["opts"], default=DIRS2 if case["entry"] == "ctmrg" else None)
     return case
+
+
+def s_cap2d(group):
+    modes = CAP_GROUPS[group]
+
+    @st.composite
+    def strat(draw, tier):
+        if draw(st.booleans()):
+            return {"kind": "side", "case": draw(s_cap_side(tier, modes=modes))}
+        return {"kind": "boundary", "case": draw(s_cap_boundary(tier, modes=modes))}
+
+    return lambda tier: strat(tier)
+
+
+def run_cap2d(case):
+    out = run_cap_side(case["case"]) if case["kind"] == "side" else run_cap_boundary(case["case"])
+    out["cls"] = ["kind=" + case["kind"]] + list(out["cls"])
+    return out
 
 
 def run_cap_boundary(case):
@@ -827,7 +934,7 @@ def env_value(tn0, parts, exponent0):
             expo += float(np.real(p.exponent))
         else:
             arrs.append((np.asarray(p.data, dtype=np.complex128), tuple(p.inds)))
-    return np.asarray(einsum_value(arrs, ())) * 10.0 ** expo
+    return np.asarray(net_value(arrs, ())) * 10.0 ** expo
 
 
 @st.composite
@@ -909,6 +1016,20 @@ def run_env_rowcol(case):
             beyond = [c for c in absorbed if (c[ax] >= i if side.endswith("min") else c[ax] <= i)]
             if beyond:
                 raise Violation("env-holds-own-row", key=[side, i], mode=mode)
+            # ... and all of what lies before it: the whole first row (it is selected by its row tag) and, of the
+            # further rows up to i, the columns inside the swept range
+            first = lo if side.endswith("min") else hi
+            before = range(lo, i) if side.endswith("min") else range(i + 1, hi + 1)
+            orng = case.get("yrange") if ax == 0 else case.get("xrange")
+            olo, ohi = (min(orng), max(orng)) if orng is not None else (0, (lat["Ly"], lat["Lx"])[ax] - 1)
+            expect = set()
+            for r in before:
+                for c in range((lat["Ly"], lat["Lx"])[ax]):
+                    # (dense=True contracts whole rows by their row tags, whatever the range across)
+                    if r == first or olo <= c <= ohi or kw.get("dense"):
+                        expect.add((r, c) if ax == 0 else (c, r))
+            if absorbed != expect:
+                raise Violation("env-rows", key=[side, i], got=len(absorbed), want=len(expect), mode=mode)
             if binding:
                 nb, _ = check_cap(env, chi, entry="env:" + side, mode=mode, layered=lat.get("layers", 1) == 2)
                 nb_total += nb
@@ -1914,12 +2035,6 @@ SUBCHECKS += [
              rule="contract_boundary / contract_ctmrg with around=1-2 sites on open lattices >=3x3: the bounding square is "
                   "untouched; untruncated: network denotes the same value; binding cap: bonds along the boundaries <= cap; "
                   "nt: D>=2 (and >=1 compressed bond seen when binding)"),
-    SubCheck("cap2d.from_side", run_cap_side, s_cap_side, examples=(60, 1500), shards=(1, 4),
-             rule="one-sided sweep over a patch with a binding cap (1 <= cap < D_layer**rows) and cutoff in {0,1e-10,1e-3}: every "
-                  "bond along the handed-over boundary <= cap; all nt"),
-    SubCheck("cap2d.boundary", run_cap_boundary, s_cap_boundary, examples=(60, 1500), shards=(1, 4),
-             rule="contract_boundary / contract_ctmrg(final_contract=False) on open lattices with a binding cap (< D_layer**2): "
-                  "every bond along a boundary line of the returned network <= cap; nt: >=1 such bond"),
 ]
 
 SUBCHECKS += [
@@ -1979,3 +2094,11 @@ SUBCHECKS += [
                   "per site: one tensor per site, every site-site bond <= max_bond; max_bond >= full bond, cutoff 0: same tensor; "
                   "nt: bond>=2 and (a two-layer site or a loop)"),
 ]
+
+for _g in CAP_GROUPS:
+    SUBCHECKS.append(SubCheck(
+        "cap2d." + _g, run_cap2d, s_cap2d(_g), examples=(50, 1200), shards=(1, 4),
+        rule=f"binding cap, modes {CAP_GROUPS[_g]}: (side) one-sided sweep over a patch with 1 <= cap < D_layer**rows and cutoff in "
+             "{0,1e-10,1e-3}: every bond along the handed-over boundary <= cap (and the boundary exists); (boundary) "
+             "contract_boundary / contract_ctmrg(final_contract=False) on open lattices with cap < D_layer**2: every bond along a "
+             "boundary line of the returned network <= cap; nt: >=1 such bond"))
